@@ -81,6 +81,33 @@ def variant_table(fn):
     return tab
 
 
+def sparse_decoder_clamp_rule(ctx, mpq, pid):
+    """(shared by C03 and C01) the sparse decoder never appends beyond the stored length"""
+    sp_d = next((f for f in mpq.fn_list if f.kind != "Closure" and f.hir and norm(f.path) == C + "algorithms::sparse::decompress"), None)
+    # sparse decoder: nothing is appended beyond the stored length — every growth of the output is clamped to what is still owed
+    R_spd = ctx.rule("%s.sparse-decoder-appends-clamped" % pid, "in the sparse decoder every resize / extend of the output uses an amount that passed through `.min(remaining)`", floor=2)
+    if sp_d is not None:
+        du = mirg.DefUse(sp_d)
+        ctx.saw_fn(sp_d)
+        n_g = 0
+        for bb, t in mirg.iter_calls(sp_d):
+            cn = ncallee(t) or ""
+            if not re.search(r"Vec(::<[^>]*>)?::(resize|extend_from_slice|extend|push)$", cn) or len(t["a"]) < 2:
+                continue
+            n_g += 1
+            l = mirg.op_local(t["a"][1])
+            calls_ = du.slice_back(l, depth=10)[1] if l is not None else []
+            clamped = any(re.search(r"::min$|::clamp$", ncallee(c_) or "") for c_ in calls_)
+            inst = {"growth": cn.split("::")[-1], "line": t["ln"]}
+            if clamped:
+                ctx.ok(R_spd, inst)
+            else:
+                ctx.bad(R_spd, "sparse-decoder|%s|unclamped" % cn.split("::")[-1], "%s:%d" % (sp_d.file, t["ln"]), "`%s` grows the output by an amount that never passes through min(remaining)" % cn.split("::")[-1],
+                        "the encoder ends some streams with a full-length zero-run marker and relies on the decoder cutting it at the stored length: the decoder returns more bytes than were compressed (the public API then rejects the codec's own output)")
+        if n_g == 0:
+            ctx.bad(R_spd, "sparse-decoder|no-growth", sp_d.where, "no output growth recognised", "shape changed")
+
+
 def partial_io_rule(ctx, crates, pid, scope=None, floor=5):
     """`Write::write` / `Read::read` may transfer fewer bytes than asked: a call whose returned count never reaches a comparison,
     an arithmetic update or a slice bound has silently accepted a short transfer.  `write_all` / `read_exact` / `read_to_end`
@@ -160,6 +187,33 @@ def run(ctx):
     R_lim = ctx.rule("C03.compressor-respects-reader-limits", "compress consults validate_decompression_operation with default limits and stores raw when it would reject", floor=2)
 
     partial_io_rule(ctx, [mpq], "C03", scope=re.compile(r"::compression::"), floor=4)
+
+    # a codec call depends on its arguments only: no process-wide mutable state (a session counter that only grows would make
+    # decompress() refuse the compressor's own output after enough history)
+    R_state = ctx.rule("C03.codecs-keep-no-state-between-calls", "no static with interior mutability is declared in, or referenced from, the compression module", floor=1)
+    from .c09 import INTERIOR
+    bad_statics = [s_ for s_ in mpq.items["statics"] if (not s_["freeze"] or INTERIOR.search(s_["ty"]))]
+    refs = []
+    for f in mpq.fn_list:
+        if not f.mir or "::compression::" not in f.path or "::tests::" in f.path:
+            continue
+        for b in f.mir["blocks"]:
+            for st in b["s"]:
+                for o in (mirg.rvalue_operands(st[2]) if st[0] == "=" else []):
+                    c_ = mirg.op_const(o)
+                    if c_ and c_.get("static") and any(s_["path"].endswith(c_["static"].split("::")[-1]) for s_ in bad_statics):
+                        refs.append((f, c_["static"]))
+            for o in (b["t"].get("a") or []) if b["t"]["k"] == "call" else []:
+                c_ = mirg.op_const(o)
+                if c_ and c_.get("static") and any(s_["path"].endswith(c_["static"].split("::")[-1]) for s_ in bad_statics):
+                    refs.append((f, c_["static"]))
+    in_mod = [s_ for s_ in bad_statics if "::compression::" in s_["path"] or "/compression/" in s_["file"]]
+    if in_mod or refs:
+        w_ = in_mod[0]["path"] if in_mod else refs[0][1]
+        ctx.bad(R_state, "compression|static|%s" % w_.split("::")[-1], (("%s:%d" % (in_mod[0]["file"], in_mod[0]["ln"])) if in_mod else refs[0][0].where), "the compression module uses the interior-mutable static `%s`" % w_,
+                "state accumulated by earlier calls (a session total that never resets) changes what later calls accept: after enough history decompress() rejects blocks compress() has just produced")
+    else:
+        ctx.ok(R_state, {"interior_mutable_statics_in_crate": len(bad_statics), "referenced_from_compression": 0})
 
     # PKWare: (a) the decode loop keeps calling the exploder while it still holds a finished window, even when the input is used up;
     # (b) the encoder of the `pklib` dependency is only handed blocks it can encode (it never slides its 8708-byte work buffer)
@@ -507,28 +561,7 @@ def run(ctx):
         else:
             ctx.ok(R_lim, {"fn": who, "calls_validator": True})
 
-    # sparse decoder: nothing is appended beyond the stored length — every growth of the output is clamped to what is still owed
-    R_spd = ctx.rule("C03.sparse-decoder-appends-clamped", "in the sparse decoder every resize / extend of the output uses an amount that passed through `.min(remaining)`", floor=2)
-    if sp_d is not None:
-        du = mirg.DefUse(sp_d)
-        ctx.saw_fn(sp_d)
-        n_g = 0
-        for bb, t in mirg.iter_calls(sp_d):
-            cn = ncallee(t) or ""
-            if not re.search(r"Vec(::<[^>]*>)?::(resize|extend_from_slice|extend|push)$", cn) or len(t["a"]) < 2:
-                continue
-            n_g += 1
-            l = mirg.op_local(t["a"][1])
-            calls_ = du.slice_back(l, depth=10)[1] if l is not None else []
-            clamped = any(re.search(r"::min$|::clamp$", ncallee(c_) or "") for c_ in calls_)
-            inst = {"growth": cn.split("::")[-1], "line": t["ln"]}
-            if clamped:
-                ctx.ok(R_spd, inst)
-            else:
-                ctx.bad(R_spd, "sparse-decoder|%s|unclamped" % cn.split("::")[-1], "%s:%d" % (sp_d.file, t["ln"]), "`%s` grows the output by an amount that never passes through min(remaining)" % cn.split("::")[-1],
-                        "the encoder ends some streams with a full-length zero-run marker and relies on the decoder cutting it at the stored length: the decoder returns more bytes than were compressed (the public API then rejects the codec's own output)")
-        if n_g == 0:
-            ctx.bad(R_spd, "sparse-decoder|no-growth", sp_d.where, "no output growth recognised", "shape changed")
+    sparse_decoder_clamp_rule(ctx, mpq, "C03")
 
     # ADPCM decoder: the channel advances once per *sample*; a marker byte that carries no sample gives its slot back
     R_adp = ctx.rule("C03.adpcm-channel-advances-once-per-sample", "in the ADPCM decode loop every arm of the per-byte decision either emits a sample or restores the channel index it was handed", floor=3)
